@@ -1,9 +1,9 @@
 #!/bin/bash
-# usage: tools/sweep.sh <tier> <seed>...   runs every registered check at each seed; prints one line per run
+# usage: [SWEEP_IDS="C05 C07"] tools/sweep.sh <tier> <seed>...   runs every registered check (or those named) at each seed; prints one line per run
 cd "$(dirname "$0")/.." || exit 2
 tier=$1; shift
 for seed in "$@"; do
-  for id in $(python3 -c "import json;print(' '.join(c['property_id'] for c in json.load(open('MANIFEST.json'))['checks']))"); do
+  for id in ${SWEEP_IDS:-$(python3 -c "import json;print(' '.join(c['property_id'] for c in json.load(open('MANIFEST.json'))['checks']))")}; do
     start=$(date +%s)
     out=$(VERIF_SEED=$seed ./check $id $tier 2>&1)
     rc=$?
